@@ -85,3 +85,190 @@ CAMLprim value vp_fixed_decode(value bits, value s, value align)
 	free(raw);
 	CAMLreturn(caml_copy_int64((int64_t) r));
 }
+
+/* ---- generic handles: C pointers travel as nativeint ------------------------ */
+#include <fcntl.h>
+#include <unistd.h>
+#include <sys/stat.h>
+#include <errno.h>
+#define PTR(v) ((void *) Nativeint_val(v))
+static value mk_ptr(const void *p) { return caml_copy_nativeint((intnat) p); }
+
+/* ---- compression (oracle for the writer model, and C15) --------------------- */
+/* returns Some bytes | None */
+static value some(value v) { CAMLparam1(v); CAMLlocal1(r); r = caml_alloc(1, 0); Store_field(r, 0, v); CAMLreturn(r); }
+CAMLprim value vp_compress(value alg, value use_level, value level, value s)
+{
+	CAMLparam4(alg, use_level, level, s);
+	uint8_t *out = NULL; size_t outlen = 0; mtbl_res r;
+	if (Bool_val(use_level))
+		r = mtbl_compress_level(Long_val(alg), Long_val(level), (const uint8_t *) String_val(s), caml_string_length(s), &out, &outlen);
+	else
+		r = mtbl_compress(Long_val(alg), (const uint8_t *) String_val(s), caml_string_length(s), &out, &outlen);
+	if (r != mtbl_res_success) CAMLreturn(Val_int(0));
+	value res = mk_string(out, outlen); free(out);
+	CAMLreturn(some(res));
+}
+CAMLprim value vp_decompress(value alg, value s)
+{
+	CAMLparam2(alg, s);
+	uint8_t *out = NULL; size_t outlen = 0;
+	mtbl_res r = mtbl_decompress(Long_val(alg), (const uint8_t *) String_val(s), caml_string_length(s), &out, &outlen);
+	if (r != mtbl_res_success) CAMLreturn(Val_int(0));
+	value res = mk_string(out, outlen); free(out);
+	CAMLreturn(some(res));
+}
+CAMLprim value vp_crc32c(value s, value off)
+{
+	/* checksum of s[off..] : the offset changes the alignment of the buffer */
+	return caml_copy_int64((int64_t)(uint64_t) mtbl_crc32c((const uint8_t *) String_val(s) + Long_val(off), caml_string_length(s) - Long_val(off)));
+}
+
+/* ---- thread pool ------------------------------------------------------------ */
+CAMLprim value vp_pool_init(value n) { return mk_ptr(mtbl_threadpool_init(Long_val(n))); }
+CAMLprim value vp_pool_destroy(value p) { struct mtbl_threadpool *tp = PTR(p); mtbl_threadpool_destroy(&tp); return Val_unit; }
+
+/* ---- writer ------------------------------------------------------------------ */
+/* opts: (comp, level_set, level, bs_set, block_size, ri_set, interval, pool ptr) */
+CAMLprim value vp_writer_init_fd(value fd, value o)
+{
+	CAMLparam2(fd, o);
+	struct mtbl_writer_options *wo = mtbl_writer_options_init();
+	if (Long_val(Field(o, 0)) >= 0) mtbl_writer_options_set_compression(wo, Long_val(Field(o, 0)));
+	if (Bool_val(Field(o, 1))) mtbl_writer_options_set_compression_level(wo, Long_val(Field(o, 2)));
+	if (Bool_val(Field(o, 3))) mtbl_writer_options_set_block_size(wo, Long_val(Field(o, 4)));
+	if (Bool_val(Field(o, 5))) mtbl_writer_options_set_block_restart_interval(wo, Long_val(Field(o, 6)));
+	if (PTR(Field(o, 7)) != NULL) mtbl_writer_options_set_threadpool(wo, PTR(Field(o, 7)));
+	struct mtbl_writer *w = mtbl_writer_init_fd(Long_val(fd), wo);
+	mtbl_writer_options_destroy(&wo);
+	CAMLreturn(mk_ptr(w));
+}
+CAMLprim value vp_writer_init(value path)
+{
+	return mk_ptr(mtbl_writer_init(String_val(path), NULL));
+}
+CAMLprim value vp_writer_add(value w, value k, value v)
+{
+	mtbl_res r = mtbl_writer_add(PTR(w), (const uint8_t *) String_val(k), caml_string_length(k),
+				     (const uint8_t *) String_val(v), caml_string_length(v));
+	return Val_bool(r == mtbl_res_success);
+}
+CAMLprim value vp_writer_destroy(value w) { struct mtbl_writer *p = PTR(w); mtbl_writer_destroy(&p); return Val_unit; }
+
+/* raw fd helpers (OCaml's Unix.file_descr is an int on Unix) */
+CAMLprim value vp_open_rw(value path, value excl)
+{
+	int fd = open(String_val(path), O_RDWR | O_CREAT | (Bool_val(excl) ? O_EXCL : 0), 0644);
+	return Val_long(fd);
+}
+CAMLprim value vp_close(value fd) { close(Long_val(fd)); return Val_unit; }
+CAMLprim value vp_lseek_set(value fd, value off) { return caml_copy_int64(lseek(Long_val(fd), Int64_val(off), SEEK_SET)); }
+CAMLprim value vp_write_str(value fd, value s)
+{
+	size_t n = caml_string_length(s), done = 0;
+	while (done < n) { ssize_t r = write(Long_val(fd), String_val(s) + done, n - done); if (r <= 0) break; done += r; }
+	return Val_long(done);
+}
+CAMLprim value vp_file_size(value fd) { struct stat st; if (fstat(Long_val(fd), &st) != 0) return caml_copy_int64(-1); return caml_copy_int64(st.st_size); }
+CAMLprim value vp_pread(value fd, value off, value n)
+{
+	CAMLparam3(fd, off, n);
+	size_t len = Long_val(n);
+	value s = caml_alloc_string(len);
+	size_t done = 0;
+	while (done < len) {
+		ssize_t r = pread(Long_val(fd), Bytes_val(s) + done, len - done, Int64_val(off) + done);
+		if (r <= 0) break;
+		done += r;
+	}
+	if (done != len) caml_failwith("vp_pread: short read");
+	CAMLreturn(s);
+}
+
+/* ---- reader ------------------------------------------------------------------ */
+CAMLprim value vp_reader_init(value path, value verify, value madv)
+{
+	struct mtbl_reader_options *ro = mtbl_reader_options_init();
+	mtbl_reader_options_set_verify_checksums(ro, Bool_val(verify));
+	mtbl_reader_options_set_madvise_random(ro, Bool_val(madv));
+	struct mtbl_reader *r = mtbl_reader_init(String_val(path), ro);
+	mtbl_reader_options_destroy(&ro);
+	return mk_ptr(r);
+}
+CAMLprim value vp_reader_init_fd(value fd, value verify)
+{
+	struct mtbl_reader_options *ro = mtbl_reader_options_init();
+	mtbl_reader_options_set_verify_checksums(ro, Bool_val(verify));
+	struct mtbl_reader *r = mtbl_reader_init_fd(Long_val(fd), ro);
+	mtbl_reader_options_destroy(&ro);
+	return mk_ptr(r);
+}
+CAMLprim value vp_reader_destroy(value r) { struct mtbl_reader *p = PTR(r); mtbl_reader_destroy(&p); return Val_unit; }
+CAMLprim value vp_reader_source(value r) { return mk_ptr(mtbl_reader_source(PTR(r))); }
+/* metadata accessors: [version; index_block_offset; data_block_size; compression; count_entries;
+   count_data_blocks; bytes_data_blocks; bytes_index_block; bytes_keys; bytes_values] */
+CAMLprim value vp_reader_metadata(value r)
+{
+	CAMLparam1(r); CAMLlocal1(a);
+	const struct mtbl_metadata *m = mtbl_reader_metadata(PTR(r));
+	uint64_t v[10] = { mtbl_metadata_file_version(m), mtbl_metadata_index_block_offset(m),
+		mtbl_metadata_data_block_size(m), mtbl_metadata_compression_algorithm(m),
+		mtbl_metadata_count_entries(m), mtbl_metadata_count_data_blocks(m),
+		mtbl_metadata_bytes_data_blocks(m), mtbl_metadata_bytes_index_block(m),
+		mtbl_metadata_bytes_keys(m), mtbl_metadata_bytes_values(m) };
+	a = caml_alloc(10, 0);
+	for (int i = 0; i < 10; i++) Store_field(a, i, caml_copy_int64((int64_t) v[i]));
+	CAMLreturn(a);
+}
+
+/* ---- sources and iterators ----------------------------------------------------- */
+CAMLprim value vp_source_iter(value s) { return mk_ptr(mtbl_source_iter(PTR(s))); }
+CAMLprim value vp_source_get(value s, value k)
+{ return mk_ptr(mtbl_source_get(PTR(s), (const uint8_t *) String_val(k), caml_string_length(k))); }
+CAMLprim value vp_source_get_prefix(value s, value k)
+{ return mk_ptr(mtbl_source_get_prefix(PTR(s), (const uint8_t *) String_val(k), caml_string_length(k))); }
+CAMLprim value vp_source_get_range(value s, value k0, value k1)
+{ return mk_ptr(mtbl_source_get_range(PTR(s), (const uint8_t *) String_val(k0), caml_string_length(k0),
+				       (const uint8_t *) String_val(k1), caml_string_length(k1))); }
+CAMLprim value vp_source_write(value s, value w) { return Val_bool(mtbl_source_write(PTR(s), PTR(w)) == mtbl_res_success); }
+CAMLprim value vp_iter_next(value it)
+{
+	CAMLparam1(it); CAMLlocal3(k, v, p);
+	const uint8_t *key, *val; size_t lk, lv;
+	if (mtbl_iter_next(PTR(it), &key, &lk, &val, &lv) != mtbl_res_success) CAMLreturn(Val_int(0));
+	k = mk_string(key, lk); v = mk_string(val, lv);
+	p = caml_alloc_tuple(2); Store_field(p, 0, k); Store_field(p, 1, v);
+	CAMLreturn(some(p));
+}
+CAMLprim value vp_iter_seek(value it, value k)
+{ return Val_bool(mtbl_iter_seek(PTR(it), (const uint8_t *) String_val(k), caml_string_length(k)) == mtbl_res_success); }
+CAMLprim value vp_iter_destroy(value it) { struct mtbl_iter *p = PTR(it); mtbl_iter_destroy(&p); return Val_unit; }
+
+/* ---- write(2) shim for writer.c (compiled with -Dwrite=vp_write) --------------- */
+/* schedule entries: -1 = EINTR, -2 = hard error (EIO), 0 = return 0, n>0 = write at most n bytes,
+ * VP_FULL = complete write.  When the schedule is exhausted every call completes in full. */
+#define VP_FULL 0x7fffffff
+static int *vp_sched = NULL; static size_t vp_sched_len = 0, vp_sched_pos = 0; static long vp_write_calls = 0;
+#undef write
+ssize_t vp_write(int fd, const void *buf, size_t n)
+{
+	vp_write_calls++;
+	if (vp_sched_pos < vp_sched_len) {
+		int o = vp_sched[vp_sched_pos++];
+		if (o == -1) { errno = EINTR; return -1; }
+		if (o == -2) { errno = EIO; return -1; }
+		if (o == 0) return 0;
+		if (o != VP_FULL && (size_t) o < n) n = o;
+	}
+	size_t done = 0;
+	while (done < n) { ssize_t r = write(fd, (const char *) buf + done, n - done); if (r < 0 && errno == EINTR) continue; if (r <= 0) return -1; done += r; }
+	return (ssize_t) done;
+}
+CAMLprim value vp_set_write_schedule(value arr)
+{
+	free(vp_sched); vp_sched_len = Wosize_val(arr); vp_sched_pos = 0; vp_write_calls = 0;
+	vp_sched = malloc(sizeof(int) * (vp_sched_len + 1));
+	for (size_t i = 0; i < vp_sched_len; i++) vp_sched[i] = Long_val(Field(arr, i));
+	return Val_unit;
+}
+CAMLprim value vp_write_calls_made(value unit) { return Val_long(vp_write_calls); }
